@@ -148,10 +148,26 @@ package util
 //@   ensures forall j :: 0 <= j && j < len(q.acked) ==> q.acked[j] == old(q.acked[len(q.acked) - imin(len(q.acked), MaxCachedChunks) + j])      :keep_newest
 //@   ensures old(len(q.out)) > 0 && !old(memberU16(q.acked, q.out[0].SeqNo)) ==> len(q.out) > 0 && q.out[0] == old(q.out[0])   :unacked_head_stays
 //@   ensures q.queueHasData == (len(q.out) > 0)                                                                              :flag_tracks_queue
+// C07: an acknowledged head is retired (whatever its number is relative to NextSeqNo: the comparison of sequence
+// numbers is equality, the 16-bit counter wraps): otherwise it would be retransmitted for ever and nothing
+// queued behind it would ever be sent
+//@   ensures old(len(q.out)) > 0 && old(memberU16(q.acked, q.out[0].SeqNo)) ==> len(q.out) < old(len(q.out))                :acknowledged_head_is_retired
+//@   loop 1 invariant old(len(q.out)) > 0 && (exists k :: 0 <= k && k < iter && rng[k] == old(q.out[0].SeqNo)) ==> len(q.out) < old(len(q.out))
+//@   loop 1 invariant old(len(q.out)) > 0 && len(q.out) == old(len(q.out)) ==> q.out[0] == old(q.out[0]) && q.out[0].SeqNo == old(q.out[0].SeqNo)
 //@   loop 1 vars iter int, rng []uint16
 //@   loop 1 invariant outWF(q) && spec_sameref(q.out, old(q.out))
 //@   loop 1 invariant len(q.out) <= old(len(q.out)) && spec_sameslice(q.acked, old(q.acked)) && len(rng) == len(q.acked) && (len(rng) > 0 ==> &rng[0] == &q.acked[0])
 //@   loop 1 invariant old(len(q.out)) > 0 && !old(memberU16(q.acked, q.out[0].SeqNo)) ==> len(q.out) > 0 && q.out[0] == old(q.out[0]) && q.out[0].SeqNo == old(q.out[0].SeqNo)
+// the search for the packet an acknowledgement names: until it is found nothing is removed (the queue is still the
+// slice being ranged over), and what the outer loop has established so far still stands
+//@   loop 2 vars iter int, rng []*Packet, a uint16, iter1 int, rng1 []uint16
+//@   loop 2 invariant outWF(q) && spec_sameref(q.out, old(q.out)) && spec_sameslice(rng, q.out)
+//@   loop 2 invariant len(q.out) <= old(len(q.out)) && spec_sameslice(q.acked, old(q.acked)) && len(rng1) == len(q.acked) && (len(rng1) > 0 ==> &rng1[0] == &q.acked[0])
+//@   loop 2 invariant old(len(q.out)) > 0 && !old(memberU16(q.acked, q.out[0].SeqNo)) ==> len(q.out) > 0 && q.out[0] == old(q.out[0]) && q.out[0].SeqNo == old(q.out[0].SeqNo)
+//@   loop 2 invariant old(len(q.out)) > 0 && (exists k :: 0 <= k && k < iter1 && rng1[k] == old(q.out[0].SeqNo)) ==> len(q.out) < old(len(q.out))
+//@   loop 2 invariant old(len(q.out)) > 0 && len(q.out) == old(len(q.out)) ==> q.out[0] == old(q.out[0]) && q.out[0].SeqNo == old(q.out[0].SeqNo)
+//@   loop 2 invariant 0 <= iter1 && iter1 < len(rng1) && a == rng1[iter1]
+//@   loop 2 invariant iter > 0 && len(q.out) == old(len(q.out)) ==> q.out[0].SeqNo != a
 
 //@ go func imin(a, b int) int { if a < b { return a }; return b }
 
